@@ -19,7 +19,7 @@ pub fn rel_exp(r: &Value) -> RelExp {
         aq: if r["q"].as_u64() == Some(1) { Some("any".into()) } else { None },
         version: match v { 1 => Some((">=".into(), "1.0".into())), 2 => Some(("<<".into(), "1:2.0~rc1".into())), _ => None },
         archs: match a { 1 => Some(vec!["amd64".into()]), 2 => Some(vec!["!i386".into(), "linux-any".into()]), _ => None },
-        profs: (1..=p).map(|g| if g == 1 { vec![(true, "nocheck".to_string())] } else { vec![(false, "stage1".to_string()), (true, "cross".to_string())] }).collect(),
+        profs: (1..=p).map(|g| if g == 1 { vec![(true, "nocheck".to_string())] } else if g == 2 { vec![(false, "stage1".to_string()), (true, "cross".to_string())] } else { vec![(true, "a".to_string()), (true, "b".to_string()), (true, "pkg.c.d".to_string())] }).collect(),
     }
 }
 pub fn model_structure(f: &Value) -> Vec<Vec<RelExp>> {
@@ -155,7 +155,8 @@ fn apply(root: &mut Relations, op: &Value, h: &mut Handles) -> Result<(), String
                 "set_archqual" => r.set_archqual("any"),
                 "set_architectures" => { if arg == 1 { r.set_architectures(vec!["amd64"].into_iter()) } else { r.set_architectures(vec!["!i386", "linux-any"].into_iter()) } }
                 _ => { let n = r.profiles().count();
-                       if n == 0 { r.add_profile(&[BuildProfile::Disabled("nocheck".into())]) } else { r.add_profile(&[BuildProfile::Enabled("stage1".into()), BuildProfile::Disabled("cross".into())]) } }
+                       if n == 0 { r.add_profile(&[BuildProfile::Disabled("nocheck".into())]) } else if n == 1 { r.add_profile(&[BuildProfile::Enabled("stage1".into()), BuildProfile::Disabled("cross".into())]) }
+                       else { r.add_profile(&[BuildProfile::Disabled("a".into()), BuildProfile::Disabled("b".into()), BuildProfile::Disabled("pkg.c.d".into())]) } }
             });
             h.keep_rel(i, j, r);
             res
@@ -187,7 +188,7 @@ fn model_after(f: &Vec<Vec<RelExp>>, op: &Value) -> Vec<Vec<RelExp>> {
         "drop_constraint" => f[i][j].version = None,
         "set_archqual" => f[i][j].aq = Some("any".into()),
         "set_architectures" => f[i][j].archs = Some(if arg == 1 { vec!["amd64".into()] } else { vec!["!i386".into(), "linux-any".into()] }),
-        "add_profile" => { let n = f[i][j].profs.len(); f[i][j].profs.push(if n == 0 { vec![(true, "nocheck".into())] } else { vec![(false, "stage1".into()), (true, "cross".into())] }); }
+        "add_profile" => { let n = f[i][j].profs.len(); f[i][j].profs.push(if n == 0 { vec![(true, "nocheck".into())] } else if n == 1 { vec![(false, "stage1".into()), (true, "cross".into())] } else { vec![(true, "a".into()), (true, "b".into()), (true, "pkg.c.d".into())] }); }
         _ => {}
     }
     f
